@@ -3,11 +3,16 @@ from checks.generic import standard
 def run(ctx):
     return standard(ctx,
         props=[("Props.C13", ["c13_decision", "c13_patterns", "c13_unusable_pattern_refuses", "c13_skip_unusable_refuted", "c13_no_lookalike", "c13_own_hosts_match", "c13_no_config", "c13_cors", "c13_old_rule_refuted",
-                              "c13_split_complete", "c13_split_sound", "c13_plain_grammar"])],
+                              "c13_split_complete", "c13_split_sound", "c13_plain_grammar",
+                              "c13_decision_as_configured", "c13_cors_as_configured", "c13_client_kind_irrelevant", "c13_odd_entry_matches_nothing",
+                              "c13_trimset_loader_refuted", "c13_loopback_prefix_refuted"])],
         harness=("TestVerif_C13", ["kmd/common.go", "kmd/creds.go", "kmd/c13.go"]),
-        cases=("CasesC13.v", [("c13_mismatches", "CanRedirectToURL / CorsOriginAllowed / generic CORS = model on the components url.Parse delivers, 12 client configurations, pattern verdicts per configured pattern (match / no match / refused by the regexp library)"),
+        cases=("CasesC13.v", [("c13_mismatches", "CanRedirectToURL / CorsOriginAllowed / generic CORS = model on the components url.Parse delivers, 12 client configurations x {client with a secret, public client} x {other client options on, off}, pattern verdicts per configured pattern (match / no match / refused by the regexp library)"),
+                              ("c13_form_mismatches", "clients whose single allowed_redirect_domains entry is written in an odd form (URL form with/without slash, path, port, http; scheme-relative; upper case; leading/trailing dot; surrounding spaces; wildcard; host:port) loaded through the real loader, redirect_uri hosts derived from the entry (truncations, sub- and look-alike names, decorated spellings): CanRedirectToURL / CorsOriginAllowed = model on the entry AS CONFIGURED", "CasesC13forms.idx"),
+                              ("c13_loader_mismatches", "the domain list the running state holds per client after loadVerifyConfigFile = the model's loaded_domains of the configured strings (identity)", "CasesC13loader.idx"),
                               ("c13_split_mismatches", "net/url.Parse = Gallina splitter on members and near-misses of the conservative https grammar", "CasesC13split.idx")], "CasesC13.idx"),
-        violating=[("c13_violating", "allowed-where-specification-refuses", "CasesC13.idx")],
+        violating=[("c13_violating", "allowed-where-specification-refuses", "CasesC13.idx"),
+                   ("c13_form_violating", "allowed-outside-configured-entry", "CasesC13forms.idx")],
         trusted=["net/url.Parse and regexp run in front of the decision model (scheme, RawQuery, Path, Hostname and the pattern verdict are its inputs); on the conservative grammar of Model/UrlSplit.v net/url.Parse itself is compared with the Gallina splitter",
                  "harness WHATWG host extractor (special-scheme rules: backslash = slash, tab/CR/LF stripped, last @, percent-decoding, lower-casing) stands in for browsers"],
         assumptions=["agreement between net/url and browsers about the host of the raw string is tested against the harness's WHATWG oracle on the adversarial grammar, not proved"],
